@@ -645,7 +645,11 @@ func (g *FuncGen) applyContract(ct *FuncContract, sig *types.Signature, args []V
 	}
 	// frame
 	if !ct.AssignsSet {
+		// a contract without an assigns clause allows the callee to write anything - including what `option
+		// stable` protects from callees that have no contract at all
+		g.ignoreStable = true
 		g.havocAll("call " + short)
+		g.ignoreStable = false
 	} else if !ct.AssignsNothing {
 		for _, a := range ct.Assigns {
 			g.havocLocation(env, a)
@@ -849,7 +853,11 @@ func derefType(t types.Type) types.Type {
 func (g *FuncGen) havocAll(why string) {
 	c := g.c
 	c.note("havoc: " + why)
+	stable := g.stableClasses()
 	for _, cl := range c.classList {
+		if stable[cl] && !g.ignoreStable {
+			continue // option stable: assumed not written by callees that have no contract
+		}
 		old := g.heapOf(g.cur, cl)
 		n := c.fresh(cl+"@havoc", c.classes[cl])
 		for _, r := range g.localRefs {
@@ -860,6 +868,52 @@ func (g *FuncGen) havocAll(why string) {
 	nh := c.fresh("hwm", SInt)
 	c.assert(fmt.Sprintf("(<= %s %s)", g.cur.hwm, nh))
 	g.cur.hwm = nh
+}
+
+// stableClasses: heap classes named by `option stable (*T).f, []E, ...` - fields (of every object of struct type
+// T) and slice elements (of every slice of E) that callees without a contract are assumed not to write.  The
+// assumption is listed in the evidence; callees that do write them must be given contracts.
+func (g *FuncGen) stableClasses() map[string]bool {
+	if g.stableCache != nil {
+		return g.stableCache
+	}
+	g.stableCache = map[string]bool{}
+	if g.contract == nil || g.contract.Options["stable"] == "" {
+		return g.stableCache
+	}
+	c := g.c
+	for _, w := range strings.Fields(strings.ReplaceAll(g.contract.Options["stable"], ",", " ")) {
+		switch {
+		case strings.HasPrefix(w, "[]"):
+			t, _ := g.specType(w[2:], g.pkg)
+			if t == nil {
+				g.unsup("option stable %s: unknown element type", w)
+			}
+			g.stableCache[c.elemClass(t)] = true
+		case strings.HasPrefix(w, "("):
+			k := strings.LastIndex(w, ".")
+			if k < 0 {
+				g.unsup("option stable %s", w)
+			}
+			t, _ := g.specType(strings.Trim(w[:k], "(*)"), g.pkg)
+			if t == nil {
+				g.unsup("option stable %s: unknown type", w)
+			}
+			st, name, ok := c.structOf(t)
+			if !ok {
+				g.unsup("option stable %s: not a struct", w)
+			}
+			f, _ := findField(st, w[k+1:])
+			if f == nil {
+				g.unsup("option stable %s: no such field (stale-contract?)", w)
+			}
+			g.stableCache[c.fieldClass(name, f)] = true
+		default:
+			g.unsup("option stable %s", w)
+		}
+	}
+	c.note("assumed: callees without a contract do not write " + g.contract.Options["stable"] + " (option stable)")
+	return g.stableCache
 }
 
 func (g *FuncGen) havocCall(name string, cc *ssa.CallCommon, args []Val, res ssa.Value, in ssa.Instruction) *Val {
@@ -1179,7 +1233,11 @@ func (g *FuncGen) callWrites(cc *ssa.CallCommon) ([]string, bool) {
 			return nil, false
 		}
 	}
-	if ct == nil || !ct.AssignsSet {
+	if ct != nil && !ct.AssignsSet {
+		// contract without an assigns clause: may write anything, also what `option stable` protects
+		return append([]string{}, c.classList...), true
+	}
+	if ct == nil {
 		return nil, true
 	}
 	if ct.AssignsNothing {
